@@ -1,4 +1,5 @@
 import I18n.Lemmas.CFmtFinditer
+import I18n.Lemmas.CFmtReLive
 /-!
 # C11 — the tie of the scanner to `_directive_re`, in the kernel
 
@@ -39,7 +40,7 @@ theorem scan_iterates (fuel : Nat) (cs : List Char) :
 /-- the pattern cannot match the empty string (so `finditer` never takes its empty-match branch) -/
 theorem match_nonempty (db : CharDB) {cs : List Char} {pos : Nat} {st : St}
     (h : matchAt db CFmtRe.directiveRe cs pos = some st) : pos < st.pos :=
-  CFmtRe.match_nonempty db h
+  CFmtRe.match_nonempty db (CFmtRe.matchAt_live db) h
 
 /-- **The loop of `FormatString.__init__` yields the model's segmentation.**  `finditer` is the engine's search loop over the
     live tree; `walk` is the `for match in _directive_re.finditer(s)` loop with `if match.start() != last_pos: raise Error`,
@@ -48,11 +49,11 @@ theorem match_nonempty (db : CharDB) {cs : List Char} {pos : Nat} {st : St}
     `if last_pos != len(s): raise Error`.  Its item list and "no Error" flag are `CFmt.scan s`; and where `Error` is raised
     the text at `last_pos` starts with `%`. -/
 theorem segmentation_is_finditer (db : CharDB) (s : List Char) :
-    (CFmt.walk s (CFmt.finditer db s) 0).1 = (CFmt.scan s).1 ∧
-    (CFmt.walk s (CFmt.finditer db s) 0).2.1 = (CFmt.scan s).2 ∧
-    ((CFmt.walk s (CFmt.finditer db s) 0).2.1 = false →
-      (s.drop (CFmt.walk s (CFmt.finditer db s) 0).2.2).head? = some '%') :=
-  CFmtRe.walk_finditer db s
+    (CFmt.walk s (CFmt.finditer db CFmtRe.directiveRe s) 0).1 = (CFmt.scan s).1 ∧
+    (CFmt.walk s (CFmt.finditer db CFmtRe.directiveRe s) 0).2.1 = (CFmt.scan s).2 ∧
+    ((CFmt.walk s (CFmt.finditer db CFmtRe.directiveRe s) 0).2.1 = false →
+      (s.drop (CFmt.walk s (CFmt.finditer db CFmtRe.directiveRe s) 0).2.2).head? = some '%') :=
+  CFmtRe.walk_finditer db (CFmtRe.matchAt_live db) s
 
 /-- so `_printable_prefix(s[last_pos:])` — `re.compile('[ -~]+').match(…).group()` — never hits `None.group()` there -/
 theorem error_prefix_printable (db : CharDB) (t : List Char) :
@@ -79,8 +80,8 @@ example : matchAt db0 CFmtRe.directiveRe "%.*1d".toList 0 = none := by
   rw [directive_regex]; rfl
 example : (matchAt db0 CFmtRe.directiveRe "abc%d".toList 7).map (fun st => (st.rest, st.pos, st.caps)) =
     some ("%d".toList, 10, [(1, 7, 10)]) := by decide +kernel
-example : (CFmt.walk "a%5$hhu%%".toList (CFmt.finditer db0 "a%5$hhu%%".toList) 0).2.1 = true := by
+example : (CFmt.walk "a%5$hhu%%".toList (CFmt.finditer db0 CFmtRe.directiveRe "a%5$hhu%%".toList) 0).2.1 = true := by
   rw [(segmentation_is_finditer db0 _).2.1]; rfl
-example : (CFmt.walk "a%y".toList (CFmt.finditer db0 "a%y".toList) 0) = ([.lit ['a']], false, 1) := by decide +kernel
+example : (CFmt.walk "a%y".toList (CFmt.finditer db0 CFmtRe.directiveRe "a%y".toList) 0) = ([.lit ['a']], false, 1) := by decide +kernel
 
 end I18n.Props.C11Tie
